@@ -10,7 +10,7 @@ from tools.vlib import core, problems_ref as PR
 
 def grid(ctx, per_problem=None):
     quick = ctx.tier == "quick"
-    n = per_problem or (3 if quick else 40)
+    n = per_problem or (3 if quick else 100)
     rng = random.Random(f"{ctx.seed}-shipped")
     dy = lambda: rng.choice([0.0, 0.5, 1.0, 2.0, 3.0, 5.0, 7.0, 10.0, 0.25])  # noqa: E731  (dyadic cost coefficients: rewards compare exactly)
     out = []
